@@ -21,7 +21,7 @@ def render_schema(schema, rng, fmt=None):
         ext = rng.choice(["graphql", "graphql", "graphqls", "gql"])
     else:
         text = render_json(schema, wrapped=(fmt == "json-data"), builtins=rng.choice(["none", "scalars", "all"]),
-                           sparse=rng.random() < 0.3, indent=rng.choice([None, 1]))
+                           sparse=rng.random() < 0.3, indent=rng.choice([None, 1]), decoys=rng.random() < 0.3, rng=rng)
         ext = "json"
     return fmt, text, ext
 
